@@ -80,6 +80,30 @@ func flowsToResult(fn *ssa.Function, src ssa.Value) bool {
 		b, ok := t.Underlying().(*types.Basic)
 		return ok && b.Kind() == types.Bool
 	}
+	// localCallee: the closure of fn that a call enters, when it is one
+	inFns := map[*ssa.Function]bool{}
+	for _, g := range fns[1:] {
+		inFns[g] = true
+	}
+	calleeMemo := map[ssa.CallInstruction]*ssa.Function{}
+	localCallee := func(c ssa.CallInstruction) *ssa.Function {
+		if len(inFns) == 0 || c.Common().IsInvoke() {
+			return nil
+		}
+		g, done := calleeMemo[c]
+		if !done {
+			if g = c.Common().StaticCallee(); g == nil {
+				if _, isB := c.Common().Value.(*ssa.Builtin); !isB {
+					g = calleeOf(c)
+				}
+			}
+			calleeMemo[c] = g
+		}
+		if g != nil && inFns[g] {
+			return g
+		}
+		return nil
+	}
 	delivered := false
 	for changed := true; changed && !delivered; {
 		changed = false
@@ -182,6 +206,25 @@ func flowsToResult(fn *ssa.Function, src ssa.Value) bool {
 					case ssa.CallInstruction:
 						// a method that writes into its receiver (builder.WriteString(text)): the receiver's variable is reached
 						cc := x.Common()
+						// a call of one of the function's own closures (directly, or through the variable that holds it): what is passed
+						// for a parameter is what the closure's body works on
+						if g := localCallee(x); g != nil {
+							for i, a := range cc.Args {
+								if i >= len(g.Params) {
+									break
+								}
+								carries := reached[a]
+								switch a.Type().Underlying().(type) {
+								case *types.Pointer, *types.Interface:
+									if len(roots) > 0 && roots[rootOf(a)] {
+										carries = true
+									}
+								}
+								if carries {
+									mark(g.Params[i])
+								}
+							}
+						}
 						if hit && !cc.IsInvoke() && len(cc.Args) > 0 {
 							if _, isPtr := cc.Args[0].Type().Underlying().(*types.Pointer); isPtr && !reached[cc.Args[0]] {
 								for _, a := range cc.Args[1:] {
